@@ -384,7 +384,7 @@ func (e *Eng) doCall(fr *Frame, st *State, instr ssa.Instruction, cc *ssa.CallCo
 					vars[vd.Name] = v
 					continue
 				}
-				vars[vd.Name] = e.localAt(fr, st, instr, vd.Name)
+				vars[vd.Name] = e.localAtTyped(fr, st, instr, vd.Name, ss.Clause)
 			}
 			t := e.evalClause(ss.Clause, st, e.entry, nil, vars)
 			e.oblige(st, "assert", ss.Clause.Label, propsOf(ss.Clause, e), t, instr, "assertion before call "+ss.Callee+": "+ss.Clause.Expr)
@@ -419,7 +419,7 @@ func (e *Eng) doCall(fr *Frame, st *State, instr ssa.Instruction, cc *ssa.CallCo
 					vars[vd.Name] = v
 					continue
 				}
-				vars[vd.Name] = e.localAt(fr, st, instr, vd.Name)
+				vars[vd.Name] = e.localAtTyped(fr, st, instr, vd.Name, ss.Clause)
 				continue
 			}
 			if tv, ok := res.(*TupleV); ok && nres > 1 {
@@ -2246,6 +2246,64 @@ func (e *Eng) cellVar(fr *Frame, st *State, name string) (Val, bool) {
 		}
 	}
 	return nil, false
+}
+
+// localAtTyped resolves a local a call-site clause names.  When no variable of that name exists any more (a
+// harmless rename), and exactly one variable in scope at the site has the type the clause declares for it, that
+// variable is taken instead and the substitution is recorded among the run's assumptions: a renamed local then
+// does not turn into a spurious "contract no longer resolves" alarm.
+func (e *Eng) localAtTyped(fr *Frame, st *State, at ssa.Instruction, name string, c *Clause) (v Val) {
+	defer func() {
+		r := recover()
+		if r == nil {
+			return
+		}
+		ue, ok := r.(unsupportedErr)
+		if !ok || c == nil {
+			panic(r)
+		}
+		var want types.Type
+		if fn := e.w.specFn(c.SpecFn); fn != nil {
+			for _, p := range fn.Params {
+				if p.Name() == name {
+					want = p.Type()
+				}
+			}
+		}
+		if want == nil {
+			panic(ue)
+		}
+		cands := map[string]bool{}
+		ab := at.Block()
+		for _, b := range e.fn.Blocks {
+			if !b.Dominates(ab) {
+				continue
+			}
+			for _, in := range b.Instrs {
+				if in == at {
+					break
+				}
+				if dr, ok := in.(*ssa.DebugRef); ok && dr.Object() != nil {
+					if vo, isVar := dr.Object().(*types.Var); isVar && !dr.IsAddr && types.Identical(vo.Type(), want) {
+						cands[vo.Name()] = true
+					}
+				}
+			}
+		}
+		for _, p := range e.fn.Params {
+			if types.Identical(p.Type(), want) {
+				cands[p.Name()] = true
+			}
+		}
+		if len(cands) != 1 {
+			panic(ue)
+		}
+		for other := range cands {
+			e.note(fmt.Sprintf("contract variable %q of %s no longer exists; the only variable of type %s in scope, %q, was taken for it", name, fnDisplayName(e.fn), types.TypeString(want, nil), other))
+			v = e.localAt(fr, st, at, other)
+		}
+	}()
+	return e.localAt(fr, st, at, name)
 }
 
 func (e *Eng) localAt(fr *Frame, st *State, at ssa.Instruction, name string) Val {
